@@ -113,6 +113,19 @@ func selectFor(prop string, info *propertyInfo, db *SpecDB, fns map[string]*ssa.
 				roots[k] = true
 			}
 		}
+		if prop == "C17" && c.CT {
+			roots[k] = true
+		}
+	}
+	if prop == "C17" {
+		var s selection
+		for k, c := range db.Contracts {
+			if c.CT {
+				s.keys = append(s.keys, k)
+			}
+		}
+		sort.Strings(s.keys)
+		return s
 	}
 	if len(roots) == 0 {
 		// a property about the whole API surface of its anchor files (no contract names it): every contract
